@@ -145,12 +145,57 @@ pub fn run_c16(run: &mut Run) -> Stats {
     let tier = run.tier;
     let kmax = tier.pick(3, 4);
     let prop = run.prop.clone();
-    run.rule = format!("absent header; every list of 0..{kmax} elements over distinct codings {{gzip, identity, *, br, deflate, x-gzip}} x every weight in {{none, 0, 0., 0.0, 0.000, 0.001, 0.5, 0.999, 1, 1., 1.000}} per element x 5 whitespace styles (',' / ', ' / ' ; ' / tabs / ' , '), compared with an independent evaluator of RFC 7231 5.3.4 written from the statement (qualities as integers in thousandths, identity default = least-preferred acceptable); lists of up to 42 distinct codings with the deciding elements first and last; every pair of adjacent weights (w-1 and w thousandths, w = 1..1000) between gzip and identity / '*'; lists with a repeated coding, and every string of <= n symbols over {{g z * ; q = 0 1 . , SP 0xFF U+00E9 U+20AC (UTF-8)}} and every weight string of length <= 6 over {{0 1 9 .}}: no panic (and agreement wherever the evaluator has a verdict). non-trivial = distinct header values with a verdict from the evaluator");
+    run.rule = format!("absent header; every list of 0..{kmax} elements over distinct codings {{gzip, identity, *, br, deflate, x-gzip}} x every weight in {{none, 0, 0., 0.0, 0.000, 0.001, 0.5, 0.999, 1, 1., 1.000}} per element x 5 whitespace styles (',' / ', ' / ' ; ' / tabs / ' , '), compared with an independent evaluator of RFC 7231 5.3.4 written from the statement (qualities as integers in thousandths, identity default = least-preferred acceptable); lists of up to 42 distinct codings with the deciding elements first and last; every pair of adjacent weights (w-1 and w thousandths, w = 1..1000) between gzip and identity / '*'; lists with a repeated coding, and every string of <= n symbols over {{g z * ; q = 0 1 . , SP 0xFF U+00E9 U+20AC (UTF-8)}} and every weight string of length <= 6 over {{0 1 9 .}}: no panic (and agreement wherever the evaluator has a verdict); every ordered pair of 30 neighbouring values as two calls on one thread: the second answer must equal the answer on a fresh thread. non-trivial = distinct header values with a verdict from the evaluator");
     let mut outer: Vec<Vec<usize>> = Vec::new();
     for k in 0..=kmax {
         outer.extend(lists_k(k));
     }
     run.bounds = json!({"max_elements": kmax, "coding_lists": outer.len(), "weights": WEIGHTS.len(), "whitespace_styles": 5});
+    // should_gzip is a function of the header map: what it answers must not depend on what the
+    // thread asked before. Every ordered pair of 30 values that lie close together (letter case,
+    // weight spelling, one character, one element more) as two calls on one fresh thread; the
+    // second answer must equal the answer on a fresh thread (grey values included: whatever
+    // should_gzip says about them, it must say it every time).
+    let mut hist = Stats::new();
+    {
+        let vals: Vec<Option<Vec<u8>>> = [
+            None, Some(""), Some("gzip"), Some("GZIP"), Some("Gzip"), Some("gzip "), Some(" gzip"), Some("gzip,"), Some("gzip;q=1"), Some("gzip;q=0"), Some("gzip;q=0.0"), Some("gzip;q=0.001"),
+            Some("gzip;Q=0.5"), Some("gzip;q=0.5"), Some("gzip;q=0.5, identity;q=0.6"), Some("gzip;q=0.6, identity;q=0.5"), Some("identity;q=0.5, gzip;q=0.6"), Some("identity"), Some("identity;q=0"),
+            Some("*"), Some("*;q=0"), Some("*;q=0, gzip"), Some("gzip, *;q=0"), Some("br"), Some("br, gzip"), Some("gzip, br"), Some("x-gzip"), Some("gzipp"), Some("gzi"), Some("gzip;q=2"),
+        ]
+        .iter()
+        .map(|v| v.map(|s| s.as_bytes().to_vec()))
+        .collect();
+        let alone: Vec<Result<bool, String>> = vals.iter().map(|b| std::thread::scope(|sc| sc.spawn(|| call_should_gzip(b.as_deref())).join().unwrap_or(Err("thread".into())))).collect();
+        let mut k = 0u64;
+        for (ai, a) in vals.iter().enumerate() {
+            for (bi, b) in vals.iter().enumerate() {
+                if ai == bi {
+                    continue;
+                }
+                k += 1;
+                let rb = std::thread::scope(|sc| {
+                    sc.spawn(|| {
+                        let _ = call_should_gzip(a.as_deref());
+                        call_should_gzip(b.as_deref())
+                    })
+                    .join()
+                    .unwrap_or(Err("thread".into()))
+                });
+                hist.evaluations += 2;
+                hist.nontrivial(&("c16-seq", a, b));
+                hist.count("two_calls_on_one_thread", 1);
+                let s0 = hist.state(&("c16-seq", alone[ai].clone().ok(), alone[bi].clone().ok()));
+                let s1 = hist.state(&("c16-seq-out", rb.clone().ok()));
+                hist.transition(s0, 0, s1);
+                hist.outcome(format!("second-call/{}", if rb == alone[bi] { "same-as-alone" } else { "differs" }));
+                if rb != alone[bi] && prop == "C16" {
+                    let (a2, b2) = (a.clone(), b.clone());
+                    hist.violation((1 << 55) + k, "should-gzip:depends-on-earlier-call".into(), format!("should_gzip({:?}) right after should_gzip({:?}) on the same thread gives {rb:?}; on a fresh thread it gives {:?}", b.as_ref().map(|v| String::from_utf8_lossy(v).to_string()), a.as_ref().map(|v| String::from_utf8_lossy(v).to_string()), alone[bi]), move || json!({"engine": "neg_mc", "accept_encoding": b2.as_ref().map(|v| crate::report::bytes_json(v)), "previous_accept_encoding": a2.as_ref().map(|v| crate::report::bytes_json(v))}));
+                }
+            }
+        }
+    }
     let mut total = par_for(outer.len() as u64, threads(), |i, st| {
         let codings = &outer[i as usize];
         let k = codings.len();
@@ -247,6 +292,7 @@ pub fn run_c16(run: &mut Run) -> Stats {
             judge(Some(&h2), &mut st, (1 << 51) + x, &prop);
         }
     }
+    total.merge(hist);
     total.merge(st);
     // Every pair of ADJACENT weights (w-1, w thousandths) between gzip and identity / '*', both
     // ways round: a qvalue parser that is off by a thousandth anywhere on the scale shows here.
@@ -691,6 +737,16 @@ pub fn run_c17(run: &mut Run) -> Stats {
 pub fn replay(case: &serde_json::Value, prop: &str) -> i32 {
     if case["engine"] == "neg_mc" {
         let v = if case["accept_encoding"].is_null() { None } else { Some(crate::report::bytes_from_json(&case["accept_encoding"])) };
+        if let Some(prev) = case.get("previous_accept_encoding") {
+            // a history of two calls on one thread
+            let pv = if prev.is_null() { None } else { Some(crate::report::bytes_from_json(prev)) };
+            let v2 = v.clone();
+            let alone = std::thread::spawn(move || call_should_gzip(v2.as_deref())).join().unwrap_or(Err("thread".into()));
+            let _ = call_should_gzip(pv.as_deref());
+            let r = call_should_gzip(v.as_deref());
+            println!("after should_gzip({:?}): should_gzip({:?}) -> {r:?}; on a fresh thread -> {alone:?}", pv.as_ref().map(|b| String::from_utf8_lossy(b).to_string()), v.as_ref().map(|b| String::from_utf8_lossy(b).to_string()));
+            return if r != alone && prop == "C16" { 1 } else { 0 };
+        }
         let r = call_should_gzip(v.as_deref());
         let want = prefers_gzip(v.as_deref());
         println!("Accept-Encoding {:?}: should_gzip -> {r:?}; evaluator -> {want:?}", v.as_ref().map(|b| String::from_utf8_lossy(b).to_string()));
